@@ -19,6 +19,8 @@ import (
 	"sync"
 	"sync/atomic"
 
+	blst "github.com/supranational/blst/bindings/go"
+
 	"github.com/ava-labs/hypersdk/auth"
 	"github.com/ava-labs/hypersdk/chain"
 	"github.com/ava-labs/hypersdk/internal/vshim/evid"
@@ -28,11 +30,11 @@ import (
 var ctx = context.Background()
 
 type scheme struct {
-	name     string
-	id       uint8
-	pkLen    int
-	sigLen   int
-	parse    func([]byte) (chain.Auth, error)
+	name   string
+	id     uint8
+	pkLen  int
+	sigLen int
+	parse  func([]byte) (chain.Auth, error)
 }
 
 var schemes = []scheme{
@@ -67,9 +69,41 @@ func accepts2(s scheme, enc, msg []byte) (ok bool, parsed bool, canonical bool, 
 }
 
 var (
-	edL, _ = new(big.Int).SetString("7237005577332262213973186563042994240857116359379907606001950938285454250989", 10)
+	edL, _   = new(big.Int).SetString("7237005577332262213973186563042994240857116359379907606001950938285454250989", 10)
 	p256N, _ = new(big.Int).SetString("115792089210356248762697446949407573529996955224135760342422259061068512044369", 10)
 )
+
+// blsTorsion returns two deterministic non-trivial points of E(Fp) whose order divides the G1
+// cofactor: r * P for curve points P found by counting upwards from fixed abscissas.
+var blsTorsionOnce sync.Once
+var blsTorsionPts []*blst.P1
+
+func blsTorsion() []*blst.P1 {
+	blsTorsionOnce.Do(func() {
+		rBE, _ := new(big.Int).SetString("73eda753299d7d483339d80809a1d80553bda402fffe5bfeffffffff00000001", 16)
+		rLE := bigToLE(rBE, 32)
+		for seed := byte(1); len(blsTorsionPts) < 2 && seed < 250; seed++ {
+			cand := bytes.Repeat([]byte{seed}, 48)
+			cand[0] = 0x80 | (cand[0] & 0x0f)
+			aff := new(blst.P1Affine).Uncompress(cand)
+			if aff == nil {
+				continue
+			}
+			var p blst.P1
+			p.FromAffine(aff)
+			tor := p.Mult(rLE, 255)
+			ta := tor.ToAffine()
+			if ta.Equals(new(blst.P1Affine)) || ta.InG1() {
+				continue
+			}
+			blsTorsionPts = append(blsTorsionPts, tor)
+		}
+		if len(blsTorsionPts) == 0 {
+			evid.Infra("no BLS torsion point found")
+		}
+	})
+	return blsTorsionPts
+}
 
 func leToBig(b []byte) *big.Int {
 	r := make([]byte, len(b))
@@ -221,6 +255,19 @@ func main() {
 					}
 					inf2[1] = 0xc0
 					add(inf2, "public key and signature = point at infinity")
+					// public key shifted by points of the curve outside the prime-order subgroup: the
+					// pairing cannot see the shift, only the subgroup check of the key parser can
+					for ti, tor := range blsTorsion() {
+						var pk blst.P1
+						aff := new(blst.P1Affine).Uncompress(enc[1:sigOff])
+						if aff == nil {
+							evid.Infra("honest BLS key does not decompress")
+						}
+						pk.FromAffine(aff)
+						e := append([]byte{}, enc...)
+						copy(e[1:], pk.Add(tor).ToAffine().Compress())
+						add(e, fmt.Sprintf("public key shifted by small-order curve point #%d (outside the prime-order subgroup)", ti))
+					}
 				}
 			}
 		}
@@ -283,9 +330,18 @@ func main() {
 				ok, parsed, canon, actor := accepts2(s, c.enc, messages[c.msg])
 				done.Add(1)
 				if ok && actor != h.addr {
-					// a valid auth of a DIFFERENT account (e.g. BLS: (-pk, -sig)): not an alternative
-					// encoding of this signer's key or signature; the transaction then belongs to
-					// another actor and is paid by another sponsor. Counted, not a violation.
+					sigOff := 1 + s.pkLen
+					if len(c.enc) == len(h.enc) && bytes.Equal(c.enc[sigOff:], h.enc[sigOff:]) {
+						// the SAME signature bytes verify under a second public-key encoding: within this
+						// mutation alphabet no algebraic identity produces that (it would need ECDSA key
+						// recovery), so the verifier accepted a key it must reject (unchecked prefix,
+						// point outside the prime-order subgroup, stale key cache ...)
+						r.Violation("C17:signature-verifies-under-a-second-public-key:"+s.name, fmt.Sprintf("%s key %d message %d: the honest signature also verifies under a different public-key encoding (%s); the transaction id and the actor change without the signer's key", s.name, c.key, c.msg, c.what),
+							map[string]any{"index": i, "scheme": s.name, "mutation": c.what, "encoding": fmt.Sprintf("%x", c.enc), "honest": fmt.Sprintf("%x", h.enc)})
+					}
+					// otherwise: a valid auth of a DIFFERENT account with a different signature (e.g. BLS:
+					// (-pk, -sig) is the honest signature of the key -sk): not an alternative encoding of
+					// this signer's key or signature. Counted, not a violation.
 					relatedKey.Add(1)
 					ok = false
 				}
@@ -306,13 +362,20 @@ func main() {
 		}(w)
 	}
 	wg.Wait()
+	// verifying the alternatives must not have changed what the verifier thinks of the honest auths
+	for key, h := range hon {
+		s := schemes[key[0]]
+		if ok, _, _, actor := accepts2(s, h.enc, messages[key[2]]); !ok || actor != h.addr {
+			r.Violation("C17:honest-auth-rejected-after-other-verifications:"+s.name, fmt.Sprintf("%s key %d message %d: the honest auth verified at first and is rejected (or maps to another actor) after the alternative encodings were presented", s.name, key[1], key[2]), nil)
+		}
+	}
 	r.Sample(map[string]any{"scheme": "ed25519", "mutation": cands[9].what})
 	r.Cov["evaluations"] = done.Load()
 	r.Cov["distinct_nontrivial"] = parsedN.Load()
 	r.Cov["mutants_that_parse"] = parsedN.Load()
 	r.Cov["valid_auths_of_a_different_account_derived_without_the_key"] = relatedKey.Load()
 	r.Cov["mutants_that_parse_non_canonically"] = nonCanon.Load()
-	r.Cov["rule"] = "3 schemes x 3 deterministic keys x 3 messages (1 byte, 200 bytes, empty): all single-bit flips of the whole auth encoding, all truncations, 3 extensions, scheme-specific algebraic re-encodings (ed25519 s+k*l for all k that fit in 256 bits, l-s with R/A negations; secp256r1 n-s, r+n, s+n, zero r/s; BLS joint negation, infinity points), and all signature swaps between (key, message) pairs"
+	r.Cov["rule"] = "3 schemes x 3 deterministic keys x 3 messages (1 byte, 200 bytes, empty): all single-bit flips of the whole auth encoding, all truncations, 3 extensions, scheme-specific algebraic re-encodings (ed25519 s+k*l for all k that fit in 256 bits, l-s with R/A negations; secp256r1 n-s, r+n, s+n, zero r/s; BLS joint negation, infinity points, public key shifted by curve points outside the prime-order subgroup); the honest auths are re-verified after all alternatives (no verifier state may have been poisoned), and all signature swaps between (key, message) pairs"
 	r.Assumptions = []string{"keys are honestly generated (ZIP-215 deliberately accepts small-order public keys, whose owner-less addresses can be spent by anyone; not a malleability of a signer's signature)", "3 keys and 3 messages per scheme"}
 	r.Finish()
 }
